@@ -26,6 +26,8 @@ type procSpec struct {
 	stmts          map[string]string // Go statement text -> Lean statement (verbatim)
 	errs           map[string]string // Go error expression text -> Lean Err constructor
 	locals         []string          // Go variables bound by a verbatim statement of `stmts`
+	carry          []string          // variables of the enclosing scope a loop body updates through a verbatim statement
+	fields         map[string]string // Go field name -> Lean field name, for fields of loop elements
 	loopElem       string            // element type of a first-match loop (translated as a structural recursion over the list)
 	protoMaps      map[string]string // Go expression of a map keyed by protocol (e.g. conn.AllowedProtocols) -> Lean variable of type ConnSet
 	nameMaps       map[string]string // Go expression of a map[string]bool used as a set of names (p.NamedPorts) -> Lean place var.field : List String
@@ -41,6 +43,7 @@ type procTr struct {
 	loopCall string   // inside a first-match loop: the recursive call on the rest of the list
 	nloops   int
 	alias    map[string][2]string // range value variable -> (Lean ConnSet variable, Lean key): a pointer into the map entry
+	idxLoop  map[string]string    // index variable of `for i := range L` -> text of L: `L[i]` is the element
 }
 
 var fieldNames = map[string]string{"AllowedConns": "allowed", "DeniedConns": "denied", "PassConns": "pass", "AllowAll": "allowAll", "Ports": "ports"}
@@ -113,6 +116,10 @@ func (t *procTr) expr(e ast.Expr) (string, error) {
 			s, err := t.expr(x.X)
 			return s + "." + f, err
 		}
+		if f, ok := t.sp.fields[x.Sel.Name]; ok {
+			s, err := t.expr(x.X)
+			return s + "." + f, err
+		}
 	case *ast.TypeAssertExpr:
 		return t.expr(x.X) // the model has one peer type
 	case *ast.CallExpr:
@@ -133,6 +140,9 @@ func (t *procTr) expr(e ast.Expr) (string, error) {
 			}
 		}
 	case *ast.IndexExpr:
+		if id, ok := x.Index.(*ast.Ident); ok && t.idxLoop[id.Name] != "" && t.idxLoop[id.Name] == norm(text(x.X)) {
+			return leanIdent(id.Name), nil // `L[i]` inside `for i := range L`: the element (the loop variable of the translation)
+		}
 		if pl, ok := t.sp.nameMaps[norm(text(x.X))]; ok { // membership in a set of names
 			k, err := t.expr(x.Index)
 			return "(" + pl + ".contains " + k + ")", err
@@ -519,6 +529,7 @@ func (t *procTr) block(list []ast.Stmt, ind string) ([]string, error) {
 // is the monadic left fold of BODY over L; the state of the fold is the variables of the enclosing scope BODY assigns to.
 func (t *procTr) foldLoop(x *ast.RangeStmt, ri *rangeInfo, ind string) ([]string, error) {
 	var bad error
+	hasContinue := false
 	var carried []string
 	seen := map[string]bool{}
 	root := func(e ast.Expr) string {
@@ -544,13 +555,16 @@ func (t *procTr) foldLoop(x *ast.RangeStmt, ri *rangeInfo, ind string) ([]string
 	ast.Inspect(x.Body, func(n ast.Node) bool {
 		switch y := n.(type) {
 		case *ast.BranchStmt:
-			bad = fmt.Errorf("loop with %s", y.Tok)
+			if y.Tok != token.CONTINUE || y.Label != nil {
+				bad = fmt.Errorf("loop with %s", y.Tok)
+			}
+			hasContinue = true
 		case *ast.ReturnStmt:
 			last := ""
 			if len(y.Results) > 0 {
 				last = norm(text(y.Results[len(y.Results)-1]))
 			}
-			if _, ok := t.sp.errs[last]; !ok && last != "err" {
+			if _, ok := t.sp.errs[last]; !ok && last != "err" && !strings.Contains(last, "err.Error()") {
 				bad = fmt.Errorf("loop body returns a value: %q", norm(text(y)))
 			}
 		case *ast.AssignStmt:
@@ -585,6 +599,12 @@ func (t *procTr) foldLoop(x *ast.RangeStmt, ri *rangeInfo, ind string) ([]string
 	if bad != nil {
 		return nil, bad
 	}
+	for _, c := range t.sp.carry {
+		if t.decl[c] && !seen[c] {
+			seen[c] = true
+			carried = append(carried, c)
+		}
+	}
 	if len(carried) == 0 {
 		return nil, fmt.Errorf("loop without effect on the enclosing scope %q", norm(text(x.X)))
 	}
@@ -596,7 +616,16 @@ func (t *procTr) foldLoop(x *ast.RangeStmt, ri *rangeInfo, ind string) ([]string
 	if len(names) > 1 {
 		pat = "(" + strings.Join(names, ", ") + ")"
 	}
+	if hasContinue { // `continue` ends the body for this element with the state as it is
+		if t.loopCall != "" {
+			return nil, fmt.Errorf("nested loops with continue")
+		}
+		t.loopCall = "return " + pat
+	}
 	body, err := t.loopBody(x, ri, ind+"    ")
+	if hasContinue {
+		t.loopCall = ""
+	}
 	if err != nil {
 		return nil, err
 	}
@@ -667,6 +696,31 @@ func (t *procTr) rangeOf(x *ast.RangeStmt) (*rangeInfo, error) {
 			ri.pre = append(ri.pre, "let "+leanIdent(v.Name)+" := true")
 		}
 		return ri, nil
+	}
+	if k, ok := x.Key.(*ast.Ident); ok && k.Name != "_" && x.Value == nil {
+		// `for i := range L` over a slice, the body reading `L[i]` only: the loop variable of the translation is the element
+		lst, err := t.expr(x.X)
+		if err != nil {
+			return nil, err
+		}
+		var bad error
+		ast.Inspect(x.Body, func(n ast.Node) bool {
+			if id, ok := n.(*ast.Ident); ok && id.Name == k.Name {
+				bad = fmt.Errorf("index variable %s used outside %s[%s]", k.Name, norm(text(x.X)), k.Name)
+			}
+			if ix, ok := n.(*ast.IndexExpr); ok && norm(text(ix.X)) == norm(text(x.X)) && norm(text(ix.Index)) == k.Name {
+				return false
+			}
+			return true
+		})
+		if bad != nil {
+			return nil, bad
+		}
+		if t.idxLoop == nil {
+			t.idxLoop = map[string]string{}
+		}
+		t.idxLoop[k.Name] = norm(text(x.X))
+		return &rangeInfo{lst: lst, v: k.Name}, nil
 	}
 	v, okv := x.Value.(*ast.Ident)
 	if !okv {
@@ -791,6 +845,12 @@ func (t *procTr) ifStmt(x *ast.IfStmt, ind string) ([]string, error) {
 		if !ok {
 			return nil, fmt.Errorf("untranslatable if with an init statement %q", norm(text(x.Init)))
 		}
+		// `if err := call(…); err != nil { return …, wrap(err) }`: the call's effect, its error passed on (the wrapping keeps the class)
+		if v, ok := t.sp.stmts[norm(text(a))]; ok && norm(text(x.Cond)) == "err != nil" && x.Else == nil && len(x.Body.List) == 1 {
+			if _, isRet := x.Body.List[0].(*ast.ReturnStmt); isRet {
+				return []string{ind + v}, nil
+			}
+		}
 		ls, done, err := t.commaOk(a, ind)
 		if err != nil || !done {
 			return nil, fmt.Errorf("untranslatable if with an init statement %q", norm(text(x.Init)))
@@ -911,6 +971,42 @@ func genProcs(repo, out string) {
 		{file: k8sdir + "policy_connections.go", fn: "PolicyConnections.DeterminesAllConns", lean: "determinesAllConns",
 			sig: "(pc : PolicyConns) : Except Err Bool", muts: []string{"pc"}, pure: true,
 			atoms: map[string]string{"selectedConns.IsAllConnections()": "selectedConns.allowAll"}},
+		{file: k8sdir + "adminnetpol.go", fn: "updatePolicyConns", lean: "updatePolicyConns",
+			sig:   "(rulePorts : Option (List APort)) (policyConns : PolicyConns) (dst : KPeer) (action : String) (isBANPrule : Bool) : Except Err PolicyConns",
+			muts:  []string{"policyConns"}, result: "policyConns",
+			calls: map[string]string{"ruleConnections(rulePorts, dst)": "(Except.ok (ARule.conns rulePorts dst) : Except Err ConnSet)"},
+			stmts: map[string]string{"err = policyConns.UpdateWithRuleConns(ruleConns, action, isBANPrule)": "policyConns := (← updateWithRuleConns policyConns ruleConns action isBANPrule).1",
+				"return err": "return policyConns"}},
+		{file: k8sdir + "adminnetpol.go", fn: "updateConnsIfEgressRuleSelectsPeer", lean: "updateConnsIfEgressRuleSelectsPeer",
+			sig:   "(rulePeers : List Subject) (rulePorts : Option (List APort)) (dst : KPeer) (policyConns : PolicyConns) (action : String) (isBANPrule : Bool) : Except Err PolicyConns",
+			muts:  []string{"policyConns"}, result: "policyConns",
+			atoms: map[string]string{"len(rulePeers)": "rulePeers.length"}, errs: map[string]string{"errors.New(netpolerrors.ANPEgressRulePeersErr)": ".anpRulePeers"},
+			calls: map[string]string{"egressRuleSelectsPeer(rulePeers, dst)": "(Except.ok (rulePeers.any (·.selectsPeer dst)) : Except Err Bool)"},
+			stmts: map[string]string{"err = updatePolicyConns(rulePorts, policyConns, dst, action, isBANPrule)": "policyConns ← updatePolicyConns rulePorts policyConns dst action isBANPrule",
+				"return err": "return policyConns"}},
+		{file: k8sdir + "adminnetpol.go", fn: "updateConnsIfIngressRuleSelectsPeer", lean: "updateConnsIfIngressRuleSelectsPeer",
+			sig:   "(rulePeers : List Subject) (rulePorts : Option (List APort)) (src dst : KPeer) (policyConns : PolicyConns) (action : String) (isBANPrule : Bool) : Except Err PolicyConns",
+			muts:  []string{"policyConns"}, result: "policyConns",
+			atoms: map[string]string{"len(rulePeers)": "rulePeers.length"}, errs: map[string]string{"errors.New(netpolerrors.ANPIngressRulePeersErr)": ".anpRulePeers"},
+			calls: map[string]string{"ingressRuleSelectsPeer(rulePeers, src)": "(Except.ok (rulePeers.any (·.selectsPeer src)) : Except Err Bool)"},
+			stmts: map[string]string{"err = updatePolicyConns(rulePorts, policyConns, dst, action, isBANPrule)": "policyConns ← updatePolicyConns rulePorts policyConns dst action isBANPrule",
+				"return err": "return policyConns"}},
+		{file: k8sdir + "adminnetpol.go", fn: "AdminNetworkPolicy.GetEgressPolicyConns", lean: "anpGetEgressPolicyConns",
+			sig:   "(rules : List ARule) (dst : KPeer) : Except Err PolicyConns", carry: []string{"res"},
+			atoms: map[string]string{"NewPolicyConnections()": "PolicyConns.empty", "anp.Spec.Egress": "rules", "rule.To": "rule.peers", "rule.Ports": "rule.ports"},
+			stmts: map[string]string{"err := updateConnsIfEgressRuleSelectsPeer(rulePeers, rulePorts, dst, res, string(rule.Action), false)": "res ← updateConnsIfEgressRuleSelectsPeer rulePeers rulePorts dst res (actionString rule.action) false"}},
+		{file: k8sdir + "adminnetpol.go", fn: "AdminNetworkPolicy.GetIngressPolicyConns", lean: "anpGetIngressPolicyConns",
+			sig:   "(rules : List ARule) (src dst : KPeer) : Except Err PolicyConns", carry: []string{"res"},
+			atoms: map[string]string{"NewPolicyConnections()": "PolicyConns.empty", "anp.Spec.Ingress": "rules", "rule.From": "rule.peers", "rule.Ports": "rule.ports"},
+			stmts: map[string]string{"err := updateConnsIfIngressRuleSelectsPeer(rulePeers, rulePorts, src, dst, res, string(rule.Action), false)": "res ← updateConnsIfIngressRuleSelectsPeer rulePeers rulePorts src dst res (actionString rule.action) false"}},
+		{file: k8sdir + "baseline_admin_netpol.go", fn: "BaselineAdminNetworkPolicy.GetEgressPolicyConns", lean: "banpGetEgressPolicyConns",
+			sig:   "(rules : List ARule) (dst : KPeer) : Except Err PolicyConns", carry: []string{"res"},
+			atoms: map[string]string{"NewPolicyConnections()": "PolicyConns.empty", "banp.Spec.Egress": "rules", "rule.To": "rule.peers", "rule.Ports": "rule.ports"},
+			stmts: map[string]string{"err := updateConnsIfEgressRuleSelectsPeer(rulePeers, rulePorts, dst, res, string(rule.Action), true)": "res ← updateConnsIfEgressRuleSelectsPeer rulePeers rulePorts dst res (actionString rule.action) true"}},
+		{file: k8sdir + "baseline_admin_netpol.go", fn: "BaselineAdminNetworkPolicy.GetIngressPolicyConns", lean: "banpGetIngressPolicyConns",
+			sig:   "(rules : List ARule) (src dst : KPeer) : Except Err PolicyConns", carry: []string{"res"},
+			atoms: map[string]string{"NewPolicyConnections()": "PolicyConns.empty", "banp.Spec.Ingress": "rules", "rule.From": "rule.peers", "rule.Ports": "rule.ports"},
+			stmts: map[string]string{"err := updateConnsIfIngressRuleSelectsPeer(rulePeers, rulePorts, src, dst, res, string(rule.Action), true)": "res ← updateConnsIfIngressRuleSelectsPeer rulePeers rulePorts src dst res (actionString rule.action) true"}},
 		{file: k8sdir + "adminnetpol.go", fn: "determineConnResByAction", lean: "determineConnResByAction",
 			sig:   "(action : String) (isBANPrule : Bool) : Except Err RuleRes",
 			atoms: with(actions, map[string]string{"Pass": "RuleRes.pass", "Allow": "RuleRes.allow", "Deny": "RuleRes.deny"}), errs: badAction},
@@ -926,6 +1022,17 @@ func genProcs(repo, out string) {
 		{file: k8sdir + "baseline_admin_netpol.go", fn: "BaselineAdminNetworkPolicy.baselineAdminPolicyAffectsDirection", lean: "baselineAdminPolicyAffectsDirection",
 			sig: "(isIngress : Bool) (nIngress nEgress : Nat) : Except Err Bool", pure: true,
 			atoms: map[string]string{"len(banp.Spec.Ingress)": "nIngress", "len(banp.Spec.Egress)": "nEgress"}},
+		{file: k8sdir + "adminnetpol.go", fn: "AdminNetworkPolicy.Selects", lean: "anpSelects",
+			sig:   "(anp : ANP) (p : KPeer) (isIngress : Bool) : Except Err Bool",
+			atoms: map[string]string{"p.PeerType() == IPBlockType": "(!p.isPod)",
+				"anp.adminPolicyAffectsDirection(isIngress)": "(← adminPolicyAffectsDirection isIngress anp.ingress.length anp.egress.length)"},
+			stmts:    map[string]string{"errTitle := fmt.Sprintf(\"%s %q: \", anpErrTitle, anp.Name)": "pure ()"},
+			retCalls: map[string]string{"subjectSelectsPeer(anp.Spec.Subject, p, errTitle)": "(Except.ok (anp.subject.selectsPeer p) : Except Err Bool)"}},
+		{file: k8sdir + "baseline_admin_netpol.go", fn: "BaselineAdminNetworkPolicy.Selects", lean: "banpSelects",
+			sig:   "(banp : BANP) (p : KPeer) (isIngress : Bool) : Except Err Bool",
+			atoms: map[string]string{"p.PeerType() == IPBlockType": "(!p.isPod)",
+				"banp.baselineAdminPolicyAffectsDirection(isIngress)": "(← baselineAdminPolicyAffectsDirection isIngress banp.ingress.length banp.egress.length)"},
+			retCalls: map[string]string{"subjectSelectsPeer(banp.Spec.Subject, p, banpErrTitle)": "(Except.ok (banp.subject.selectsPeer p) : Except Err Bool)"}},
 		{file: "pkg/netpol/eval/check.go", fn: "PolicyEngine.allAllowedXgressConnections", lean: "allAllowedXgressConnections",
 			sig: "(anpRes npRes : Except Err (PolicyConns × Bool)) (defaultRes : Except Err PolicyConns) : Except Err ConnSet",
 			calls: map[string]string{
@@ -1002,6 +1109,24 @@ func genProcs(repo, out string) {
 		{file: "pkg/netpol/internal/common/portset.go", fn: "PortSet.IsAll", lean: "portSetIsAll",
 			sig: "(p : PortSet) : Except Err Bool", pure: true,
 			atoms: map[string]string{"p.Ports.Equal(MakePortSet(true).Ports)": "(CSet.equal p.ports (PortSet.mk' true).ports)", "len(p.ExcludedNamedPorts)": "p.excluded.length"}},
+		{file: k8sdir + "netpol.go", fn: "NetworkPolicy.GetEgressAllowedConns", lean: "npGetEgressAllowedConns",
+			sig:   "(np : NetPol) (dst : KPeer) : Except Err ConnSet",
+			atoms: map[string]string{"common.MakeConnectionSet(false)": "(ConnSet.mk' false)", "np.Spec.Egress": "np.egress", "rule.To": "rule.peers", "rule.Ports": "rule.ports"},
+			calls: map[string]string{"np.ruleSelectsPeer(rulePeers, dst)": "(np.ruleSelectsPeer rulePeers dst)", "np.ruleConnections(rulePorts, dst)": "(NetPol.ruleConnections rulePorts (some dst))"}},
+		{file: k8sdir + "netpol.go", fn: "NetworkPolicy.GetIngressAllowedConns", lean: "npGetIngressAllowedConns",
+			sig:   "(np : NetPol) (src dst : KPeer) : Except Err ConnSet",
+			atoms: map[string]string{"common.MakeConnectionSet(false)": "(ConnSet.mk' false)", "np.Spec.Ingress": "np.ingress", "rule.From": "rule.peers", "rule.Ports": "rule.ports"},
+			calls: map[string]string{"np.ruleSelectsPeer(rulePeers, src)": "(np.ruleSelectsPeer rulePeers src)", "np.ruleConnections(rulePorts, dst)": "(NetPol.ruleConnections rulePorts (some dst))"}},
+		{file: k8sdir + "netpol.go", fn: "NetworkPolicy.IngressAllowedConn", lean: "npIngressAllowedConn",
+			sig:   "(np : NetPol) (src : KPeer) (protocol port : String) (dst : KPeer) : Except Err Bool", loopElem: "NPRule",
+			atoms: map[string]string{"np.Spec.Ingress": "np.ingress"}, fields: map[string]string{"From": "peers", "Ports": "ports"},
+			calls: map[string]string{"np.ruleSelectsPeer(rulePeers, src)": "(np.ruleSelectsPeer rulePeers src)",
+				"np.ruleConnsContain(rulePorts, protocol, port, dst)": "(EState.npRuleConnsContain rulePorts protocol port dst)"}},
+		{file: k8sdir + "netpol.go", fn: "NetworkPolicy.EgressAllowedConn", lean: "npEgressAllowedConn",
+			sig:   "(np : NetPol) (dst : KPeer) (protocol port : String) : Except Err Bool", loopElem: "NPRule",
+			atoms: map[string]string{"np.Spec.Egress": "np.egress"}, fields: map[string]string{"To": "peers", "Ports": "ports"},
+			calls: map[string]string{"np.ruleSelectsPeer(rulePeers, dst)": "(np.ruleSelectsPeer rulePeers dst)",
+				"np.ruleConnsContain(rulePorts, protocol, port, dst)": "(EState.npRuleConnsContain rulePorts protocol port dst)"}},
 		{file: k8sdir + "netpol.go", fn: "NetworkPolicy.policyAffectsDirection", lean: "policyAffectsDirection",
 			sig: "(types : List Dir) (direction : Dir) (nEgress : Nat) : Except Err Bool", pure: true,
 			atoms: map[string]string{"len(np.Spec.PolicyTypes)": "types.length", "np.Spec.PolicyTypes": "types", "netv1.PolicyTypeIngress": "Dir.ingress",
@@ -1018,13 +1143,19 @@ func genProcs(repo, out string) {
 		{file: "pkg/netpol/eval/check.go", fn: "PolicyEngine.getAllAllowedXgressConnectionsFromANPs", lean: "getAllAllowedXgressConnectionsFromANPs",
 			sig:   "(anps : List ANP) (src dst : KPeer) (isIngress : Bool) : Except Err (PolicyConns × Bool)",
 			atoms: with(mk, map[string]string{"pe.sortedAdminNetpols": "anps"}),
-			calls: map[string]string{"anp.Selects(src, false)": "(Except.ok (anp.selects src false) : Except Err Bool)", "anp.Selects(dst, true)": "(Except.ok (anp.selects dst true) : Except Err Bool)",
-				"anp.GetEgressPolicyConns(dst)": "(adminPolicyConns anp.egress dst dst false)", "anp.GetIngressPolicyConns(src, dst)": "(adminPolicyConns anp.ingress src dst false)"},
+			calls: map[string]string{"anp.Selects(src, false)": "(anpSelects anp src false)", "anp.Selects(dst, true)": "(anpSelects anp dst true)",
+				"anp.GetEgressPolicyConns(dst)": "(anpGetEgressPolicyConns anp.egress dst)", "anp.GetIngressPolicyConns(src, dst)": "(anpGetIngressPolicyConns anp.ingress src dst)"},
 			stmts: map[string]string{"policiesConns.CollectANPConns(singleANPConns)": "policiesConns := (← collectANPConns policiesConns singleANPConns).1"}},
+		{file: "pkg/netpol/eval/check.go", fn: "PolicyEngine.determineAllowedConnsPerDirection", lean: "determineAllowedConnsPerDirection",
+			sig: "(policy : NetPol) (src dst : KPeer) (isIngress : Bool) (inExt inCw egExt egCw : ConnSet) (srcIsPod dstIsPod : Bool) : Except Err ConnSet",
+			atoms: map[string]string{"policy.IngressPolicyExposure.ExternalExposure": "inExt", "policy.IngressPolicyExposure.ClusterWideExposure": "inCw",
+				"policy.EgressPolicyExposure.ExternalExposure": "egExt", "policy.EgressPolicyExposure.ClusterWideExposure": "egCw",
+				"src.PeerType() == k8s.PodType": "srcIsPod", "dst.PeerType() == k8s.PodType": "dstIsPod"},
+			retCalls: map[string]string{"policy.GetIngressAllowedConns(src, dst)": "(npGetIngressAllowedConns policy src dst)", "policy.GetEgressAllowedConns(dst)": "(npGetEgressAllowedConns policy dst)"}},
 		{file: "pkg/netpol/eval/check.go", fn: "PolicyEngine.getAllAllowedXgressConnsFromNetpols", lean: "getAllAllowedXgressConnsFromNetpols",
 			sig:   "(polsIngress polsEgress : Except Err (List NetPol)) (src dst : KPeer) (isIngress : Bool) : Except Err (PolicyConns × Bool)",
 			atoms: with(mk, map[string]string{"nil": "PolicyConns.empty", "len(netpols)": "netpols.length"}), locals: []string{"netpols"},
-			calls: map[string]string{"pe.determineAllowedConnsPerDirection(policy, src, dst, isIngress)": "(if isIngress then policy.ingressAllowedConns src dst else policy.egressAllowedConns dst)"},
+			calls: map[string]string{"pe.determineAllowedConnsPerDirection(policy, src, dst, isIngress)": "(determineAllowedConnsPerDirection policy src dst isIngress (ConnSet.mk' false) (ConnSet.mk' false) (ConnSet.mk' false) (ConnSet.mk' false) src.isPod dst.isPod)"},
 			stmts: map[string]string{
 				"var netpols []*k8s.NetworkPolicy": "pure ()",
 				"if isIngress { netpols, err = pe.getPoliciesSelectingPod(dst, netv1.PolicyTypeIngress) } else { netpols, err = pe.getPoliciesSelectingPod(src, netv1.PolicyTypeEgress) }": "let netpols ← (if isIngress then polsIngress else polsEgress)",
@@ -1036,15 +1167,15 @@ func genProcs(repo, out string) {
 		{file: "pkg/netpol/eval/check_eval.go", fn: "PolicyEngine.allowedXgressConnectionByAdminNetpols", lean: "allowedXgressConnectionByAdminNetpols",
 			sig:   "(src dst : KPeer) (isIngress : Bool) (protocol port : String) (anps : List ANP) : Except Err (Bool × Bool)", loopElem: "ANP",
 			atoms: map[string]string{"pe.sortedAdminNetpols": "anps", "k8s.NotCaptured": "RuleRes.notCaptured"},
-			calls: map[string]string{"anp.Selects(dst, true)": "(Except.ok (anp.selects dst true) : Except Err Bool)", "anp.Selects(src, false)": "(Except.ok (anp.selects src false) : Except Err Bool)",
+			calls: map[string]string{"anp.Selects(dst, true)": "(anpSelects anp dst true)", "anp.Selects(src, false)": "(anpSelects anp src false)",
 				"anp.CheckIngressConnAllowed(src, dst, protocol, port)": "(EState.adminCheck anp.ingress src dst protocol port false)",
 				"anp.CheckEgressConnAllowed(dst, protocol, port)":       "(EState.adminCheck anp.egress dst dst protocol port false)"},
 			retCalls: map[string]string{"isAllowedByANPCapturedRes(res)": "(isAllowedByANPCapturedRes res)"}},
 		{file: "pkg/netpol/eval/check_eval.go", fn: "PolicyEngine.allowedXgressConnectionByNetpols", lean: "allowedXgressConnectionByNetpols",
 			sig:   "(polsIngress polsEgress : Except Err (List NetPol)) (src dst : KPeer) (isIngress : Bool) (protocol port : String) : Except Err (Bool × Bool)", loopElem: "NetPol",
 			atoms: map[string]string{"len(netpols)": "netpols.length"}, locals: []string{"netpols"},
-			calls: map[string]string{"policy.IngressAllowedConn(src, protocol, port, dst)": "(EState.npAllowedConn policy policy.ingress src protocol port dst)",
-				"policy.EgressAllowedConn(dst, protocol, port)": "(EState.npAllowedConn policy policy.egress dst protocol port dst)"},
+			calls: map[string]string{"policy.IngressAllowedConn(src, protocol, port, dst)": "(npIngressAllowedConn policy src protocol port dst)",
+				"policy.EgressAllowedConn(dst, protocol, port)": "(npEgressAllowedConn policy dst protocol port)"},
 			stmts: map[string]string{
 				"var netpols []*k8s.NetworkPolicy": "pure ()",
 				"if isIngress { netpols, err = pe.getPoliciesSelectingPod(dst, netv1.PolicyTypeIngress) } else { netpols, err = pe.getPoliciesSelectingPod(src, netv1.PolicyTypeEgress) }": "let netpols ← (if isIngress then polsIngress else polsEgress)",
@@ -1087,7 +1218,8 @@ func genProcs(repo, out string) {
 	}
 	var L strings.Builder
 	L.WriteString("import Netpol.Model.Cache\n/-! REGENERATED from the Go sources of /repo by /verif/tools/goextract (procs.go) on every run. Do not edit.\n" +
-		"Each definition is the statement-by-statement rewriting of one Go function into a `do` block over `Except Err`. -/\nnamespace Netpol.Gen.Procs\nopen Netpol\n\n")
+		"Each definition is the statement-by-statement rewriting of one Go function into a `do` block over `Except Err`. -/\nnamespace Netpol.Gen.Procs\nopen Netpol\n\n" +
+		"/-- `string(rule.Action)`: the strings of `AdminNetworkPolicyRuleAction` (sigs.k8s.io/network-policy-api; third party) -/\ndef actionString : Action → String\n  | .Allow => \"Allow\"\n  | .Deny => \"Deny\"\n  | .Pass => \"Pass\"\n\n")
 	broken := []string{}
 	for i := range specs {
 		sp := &specs[i]
